@@ -1,15 +1,21 @@
 #!/bin/bash
-# verify_seed.sh <worktree> <seed-dir> <module-dir-rel> <demo-dest-rel> <demo-run-regex> <existing-test-pkgs>
-# Confirms: demo passes without the change, fails with it; existing tests pass with the change.
+# verify_seed.sh <worktree> <seed-dir> <existing-test-cmds...>
+# Confirms: demo passes without the change, fails with it; the given existing-test commands (run from the worktree root,
+# e.g. "cd service && go test -count=1 ./...") pass with the change.
+# The demo's "// PLACE:" and "// RUN:" header lines say where it goes and how to run it.
 set -u
-wt=$1; seed=$2; mod=$3; dest=$4; run=$5; pkgs=$6
+wt=$1; seed=$2; shift 2
 export GOFLAGS=-mod=mod GOPROXY=off GOSUMDB=off GOTOOLCHAIN=local
 cd $wt && git checkout -q -- . && git status --short | grep -v SEED
-pkgdir=$(dirname $dest)
+dest=$(sed -n 's#^// PLACE: *##p' $seed/demo_test.go | head -1)
+run=$(sed -n 's#^// RUN: *##p' $seed/demo_test.go | head -1)
+echo "PLACE=$dest"; echo "RUN=$run"
 cp $seed/demo_test.go $wt/$dest
-echo "== demo WITHOUT change"; (cd $wt/$mod && go test -count=1 -run "$run" ./${pkgdir#$mod/}/ 2>&1 | tail -3)
-git -C $wt apply $seed/patch.diff || { echo "PATCH DOES NOT APPLY"; exit 1; }
-echo "== demo WITH change"; (cd $wt/$mod && go test -count=1 -run "$run" ./${pkgdir#$mod/}/ 2>&1 | tail -5)
+echo "== demo WITHOUT change"; (cd $wt && eval "$run" 2>&1 | tail -3)
+git -C $wt apply $seed/patch.diff || { echo "PATCH DOES NOT APPLY"; rm -f $wt/$dest; exit 1; }
+echo "== demo WITH change"; (cd $wt && eval "$run" 2>&1 | grep -E "^(--- FAIL|FAIL|ok|panic)" | head -8)
 rm $wt/$dest
-echo "== existing tests WITH change"; (cd $wt/$mod && go test -count=1 $pkgs 2>&1 | grep -v "no test files" | tail -15)
+for c in "$@"; do
+  echo "== existing tests WITH change: $c"; (cd $wt && eval "$c" 2>&1 | grep -v "no test files" | grep -vE "^ok " | tail -8; echo "exit=${PIPESTATUS[0]}")
+done
 git -C $wt checkout -q -- .
